@@ -20,7 +20,7 @@ KINDS = ("grid1", "grid2", "grid3", "oned", "rule", "atom", "mol", "uniform", "t
 SELECTABLE = ("grid1", "grid2", "grid3", "oned", "rule", "periodic", "intgrid")
 QUERYABLE = ("grid1", "grid2", "grid3", "oned", "rule", "atom", "mol", "uniform", "tensor", "local", "angular", "shell", "intgrid")
 CENTER_KINDS = ("random", "onpoint", "far", "centroid", "badshape")
-RADIUS_KINDS = ("zero", "tiny", "q10", "q50", "q90", "huge", "inf", "neg", "nan", "exact")
+RADIUS_KINDS = ("zero", "tiny", "q10", "q50", "q90", "huge", "inf", "neg", "nan", "exact", "just_below", "just_above")
 INDEX_KINDS = ("int", "negint", "npint", "npint32", "slice", "slice_step", "intarray", "mask", "list", "uintarray", "negarray", "boollist", "lastint")
 SET_KINDS = ("translate", "scale", "permute", "fresh", "badshape", "same")
 
@@ -69,7 +69,7 @@ def _gen_op(rng, cfg):
     if k == "new":
         return _gen_new(rng, cfg)
     if k == "query":
-        return ["query", h, rng.choices(CENTER_KINDS, weights=[5, 3, 1.5, 1, 0.6])[0], rng.choices(RADIUS_KINDS, weights=[1.5, 1.5, 3, 3, 2, 1, 1.5, 0.5, 0.5, 1.5])[0], rng.randrange(10**6)]
+        return ["query", h, rng.choices(CENTER_KINDS, weights=[5, 3, 1.5, 1, 0.6])[0], rng.choices(RADIUS_KINDS, weights=[1.5, 1.5, 3, 3, 2, 1, 1.5, 0.5, 0.5, 1.5, 1.2, 1.2])[0], rng.randrange(10**6)]
     if k == "requery":
         return ["requery", h]
     if k == "set_points":
@@ -311,6 +311,13 @@ def _radius_for(o, rkind, c, seed, cvalid):
     if rkind == "exact":
         # exactly the distance of some point: a boundary tie by construction
         return float(d[(seed // 7) % len(d)]), True
+    if rkind in ("just_below", "just_above"):
+        # a hair (relative 1e-6) inside / outside some point's distance: far outside the don't-care band of 1e-9, so that
+        # point must be excluded / included - an implementation that pads or shrinks the radius is caught
+        dk = float(d[(seed // 7) % len(d)])
+        if dk <= 0.0:
+            return 1e-7, True
+        return (dk * (1.0 - 1e-6) if rkind == "just_below" else dk * (1.0 + 1e-6)), True
     q = {"q10": 0.1, "q50": 0.5, "q90": 0.9}[rkind]
     i = min(len(d) - 1, int(q * len(d)))
     lo = d[i]
